@@ -156,10 +156,10 @@ Definition best_ok (part : list nat) (v ip : nat) (best : option (nat * Z)) : Pr
 Definition gain_ok (part : list nat) (w : worker) : Prop :=
   match w_pc w with
   | PGain v ip tg rest acc todo best =>
-      pid part v = ip /\ tg <> ip /\ (tg < k)%nat /\ Forall (fun t => t <> ip /\ (t < k)%nat) rest /\
+      pid part v = ip /\ (v < length part)%nat /\ tg <> ip /\ (tg < k)%nat /\ Forall (fun t => t <> ip /\ (t < k)%nat) rest /\
       (exists done, row g v = done ++ todo /\ acc = row_gain part ip tg done) /\ best_ok part v ip best
   | PStore v ip tg gn =>
-      pid part v = ip /\ tg <> ip /\ (tg < k)%nat /\ gn = row_gain part ip tg (row g v) /\ 0 < gn
+      pid part v = ip /\ (v < length part)%nat /\ tg <> ip /\ (tg < k)%nat /\ gn = row_gain part ip tg (row g v) /\ 0 < gn
   | _ => True
   end.
 
@@ -189,14 +189,14 @@ Proof.
     { intros t Hin. apply targets_spec. unfold k. rewrite Et. exact Hin. }
     destruct (row (cf_g cf) v) eqn:Er; injection H as <- <- <-.
     - apply gain_ok_other. reflexivity.
-    - unfold gain_ok. cbn [set_pc w_pc]. apply pid_nth_opt in Ep.
+    - unfold gain_ok. cbn [set_pc w_pc]. pose proof (nth_opt_Some _ _ _ Ep) as Hvl. apply pid_nth_opt in Ep.
       destruct (Ht tg (or_introl eq_refl)) as [T1 T2].
       repeat split; auto.
       + apply Forall_forall. intros t Hin. apply Ht. now right.
       + exists []. split; [exact Er|reflexivity]. }
   5: { (* PGain *)
     unfold wstep in H. rewrite Hpc in H. unfold gain_ok in Hg. rewrite Hpc in Hg.
-    destruct Hg as (Hip & Htg & Htk & Hrest & (done & Hrow & Hacc) & Hbest).
+    destruct Hg as (Hip & Hvl & Htg & Htk & Hrest & (done & Hrow & Hacc) & Hbest).
     destruct todo as [|[u ew] todo]; [discriminate|].
     destruct (nth_opt part u) as [pu|] eqn:Eu; [|discriminate]. apply pid_nth_opt in Eu.
     assert (Hacc' : acc + gain_term ip tg pu ew = row_gain part ip tg (done ++ [(u, ew)])).
@@ -210,7 +210,7 @@ Proof.
         destruct (upd_best best tg (acc + gain_term ip tg pu ew)) as [bt bg] eqn:Eb.
         apply decide_spec in Hd as (_ & _ & _ & [Hu | (Hs & Hpos & _)]).
         * apply gain_ok_other. now rewrite Hu.
-        * unfold gain_ok. rewrite Hs. cbn in Hb'. destruct Hb' as (B1 & B2 & B3). auto.
+        * unfold gain_ok. rewrite Hs. cbn in Hb'. destruct Hb' as (B1 & B2 & B3). repeat split; auto.
       + injection H as <- <- <-. unfold gain_ok. cbn [set_pc w_pc].
         inversion Hrest as [|? ? [R1 R2] R3]; subst.
         repeat split; auto. exists []. split; [reflexivity|reflexivity].
@@ -232,17 +232,19 @@ Proof.
   destruct (w_pc w) as [ | ip todo | v1 | v1 todo | v1 | v1 ip tg rest acc todo best | v1 ip tg gn | v1 r
                         | v1 todo | v1 todo nb np tg rest acc todo2 best | ]; auto.
   - cbn in Hph. injection Hph as ->.
-    destruct Hg as (Hip & Htg & Htk & Hrest & (done & Hrow & Hacc) & Hbest).
+    destruct Hg as (Hip & Hvl & Htg & Htk & Hrest & (done & Hrow & Hacc) & Hbest).
     repeat split; auto.
     + rewrite pid_set_nth_other by congruence. exact Hip.
+    + now rewrite set_nth_length.
     + exists done. split; [exact Hrow|]. rewrite row_gain_stable; [exact Hacc|].
       intros Hin. apply Hn. unfold nbrs. fold g. rewrite Hrow, map_app. apply in_or_app. now left.
     + unfold best_ok in *. destruct best as [[bt bg]|]; auto.
       destruct Hbest as (B1 & B2 & B3). repeat split; auto. rewrite row_gain_stable; auto.
   - cbn in Hph. injection Hph as ->.
-    destruct Hg as (Hip & Htg & Htk & Hgn & Hpos).
+    destruct Hg as (Hip & Hvl & Htg & Htk & Hgn & Hpos).
     repeat split; auto.
     + rewrite pid_set_nth_other by congruence. exact Hip.
+    + now rewrite set_nth_length.
     + rewrite row_gain_stable; auto.
 Qed.
 End Local.
@@ -280,6 +282,12 @@ Proof.
   cbn [map]. change (sumZ (?a :: ?l)) with (a + sumZ l). rewrite IH1, IH2. split; reflexivity.
 Qed.
 
+Lemma sum_gain_nonneg ws : Forall (fun w => 0 <= wgain w) ws -> 0 <= sum_gain ws.
+Proof.
+  unfold sum_gain. induction 1 as [|w ws Hw _ IH]; cbn [map]; [cbn; lia|].
+  change (sumZ (?a :: ?l)) with (a + sumZ l). lia.
+Qed.
+
 Section Global.
 Variable cf : config.
 Let g := cf_g cf.
@@ -315,7 +323,7 @@ Proof.
   - (* the store *)
     destruct (w_pc w) as [ | | | | | | v ip tg gn | | | | ] eqn:Hpc; try discriminate Hst.
     destruct (wstep_store _ _ _ _ _ _ _ _ _ _ _ _ Hstep Hpc) as (-> & Hv & Hg' & Hm' & Hpc' & _).
-    unfold gain_ok in Hgw. rewrite Hpc in Hgw. destruct Hgw as (Hip & Htg & Htk & Hgn & Hgpos).
+    unfold gain_ok in Hgw. rewrite Hpc in Hgw. destruct Hgw as (Hip & _ & Htg & Htk & Hgn & Hgpos).
     assert (Hcrit : wphase w = PhCrit v) by (unfold wphase; now rewrite Hpc).
     assert (Hcut : cut g (set_nth (g_part st) v tg) = cut g (g_part st) - gn).
     { rewrite cut_store; auto.
@@ -349,12 +357,6 @@ Proof.
     + split; [assumption|]. apply Forall_set_nth; auto.
       pose proof (Forall_nth_opt _ _ _ _ Hpos2 Hw). cbn in H. lia.
     + unfold sum_moves in *. rewrite (sumZ_map_set_nth _ _ _ _ _ Hw), Hm'. lia.
-Qed.
-
-Lemma sum_gain_nonneg ws : Forall (fun w => 0 <= wgain w) ws -> 0 <= sum_gain ws.
-Proof.
-  unfold sum_gain. induction 1 as [|w ws Hw _ IH]; cbn [map]; [cbn; lia|].
-  change (sumZ (?a :: ?l)) with (a + sumZ l). lia.
 Qed.
 
 Lemma end_pass_ginv st st' : ginv st ->
